@@ -112,6 +112,18 @@ prop(
     thorough=dict(checks=15000, shards=16),
 )
 
+prop(
+    "C14",
+    title="Gob transport preserves the document",
+    technique="property-based testing (rapid): vocabulary-driven documents decoded into Swagger/Operation/Parameter/Schema/Response, oracle = JSON(gobDecode(gobEncode(v))) equals JSON(v) as a JSON value, discrepancies listed as atoms and matched structurally against the known findings",
+    rule=VOCAB_RULE + "Targets: Swagger, Operation, Parameter, Schema, Response (Ref is covered by C13). security may be absent, [], or hold empty requirement objects and empty scope lists. Half of the cases are generated without zero validations and without empty arrays in payloads so that losses other than K3/K4 are not masked. Non-trivial = the value carries a zero validation, a null or empty container inside a payload, or an empty security requirement; distinct by hash of kind+document",
+    design_ref="DESIGN.md §4 C14",
+    level_text="exploration: thousands of documents per run through a real gob encoder/decoder pair; every difference between the JSON before and after is an atom; only atoms matching the two listed known findings (zero-valued numeric validation lost; [] inside a free-form payload turned into null) are tolerated, each judged by position with the vocabulary's typed walk",
+    level_note="gob type registration is the package's own (init in swagger.go); free-form payload positions are determined by the vocabulary table, not by the implementation",
+    quick=dict(checks=1500, shards=4),
+    thorough=dict(checks=12000, shards=16),
+)
+
 
 def manifest():
     allids = []
